@@ -37,6 +37,7 @@ TModel ==
   /\ l <= Len(Log) /\ Log[l].ev = "ackmodel"
   /\ l' = l + 1 /\ sc' = sc + 1
   /\ rows' = <<>> /\ sent' = {} /\ now' = 0 /\ lastDeliv' = <<>> /\ lastOp' = [op |-> "Init", id |-> 0]
+  /\ acted' = {}
 
 (* the specification is stepped with the logged operation and must arrive at  *)
 (* the observed rows and deliveries (after a first deviation the rest of that *)
